@@ -3757,7 +3757,10 @@ class DecVarSub(VarSub):
 
     def affadapt(self, rvars):
 
-        if self.vtype in ['B', 'I']:
+        vtype = self.vtype
+        if len(vtype) > 1:
+            vtype = [vtype[i] for i in np.array(self.indices).flatten()]
+        if 'B' in vtype or 'I' in vtype:
             raise ValueError('No affine adaptation for integer variables.')
         if self.dro_model is not rvars.model.top:
             raise ValueError('Model mismatch.')
